@@ -225,6 +225,12 @@ def step (ds : DS) (op impl : String) : DS × StepOut :=
     ({ m := m', o := o2 }, { model := model, oracle := extraBad ++ bad ++ hanging o2, nontrivial := nt })
   let run1 (mop : Op) (pre : String) (o' : OS) (nt : Bool) : DS × StepOut :=
     finish (Rpc.step ds.m mop) pre o' nt
+  -- C02: a send of the wrong message type is rejected (InvalidActorType) before anything else
+  -- happens and does not disturb the actor: the model state is unchanged
+  let badOp : DS × StepOut :=
+    let orc := (if ipre.startsWith "invalid-type" then [] else ["c02.wrong-type-not-rejected"]) ++
+               (if ipre.endsWith "actor-died" then ["c02.wrong-type-disturbed-actor"] else [])
+    finish ds.m "invalid-type undisturbed" ds.o true orc
   match words op with
   | ["case"] => ({}, { model := "ok" })
   | ["spawn"] => run1 .spawn "ok" ds.o false
@@ -290,6 +296,9 @@ def step (ds : DS) (op impl : String) : DS × StepOut :=
         | _ => if ipre == "dropped" then setHold ds.o p .gone else ds.o
       run1 (.later p act) pre o' true
     | _, _ => (ds, { model := "bad-op" })
+  | ["badcast", _] => badOp
+  | ["badsend", _] => badOp
+  | ["badcall", _] => badOp
   | ["exit", a] =>
     match a.toNat? with
     | some a => run1 (.exit a) "ok" (killHolds ds.o a) true
@@ -323,6 +332,15 @@ def stripMacro (op : String) : String :=
   | _ => op
 
 def run (ops impl : Array String) : IO Tally :=
-  replay ({} : DS) (fun ds op im => step ds (stripMacro op) im) ops impl
+  replay ({} : DS) (fun ds op im =>
+    let (ds', out) := step ds (stripMacro op) im
+    -- the C09 check does not report the C02 clauses (they are claimed by the C02 check)
+    (ds', { out with oracle := out.oracle.filter (fun c => !c.startsWith "c02.") })) ops impl
+
+/-- same replay, reporting only the wrong-type clauses of C02 (run entry of `checks/C02.json`) -/
+def runC02 (ops impl : Array String) : IO Tally :=
+  replay ({} : DS) (fun ds op im =>
+    let (ds', out) := step ds (stripMacro op) im
+    (ds', { out with oracle := out.oracle.filter (fun c => c.startsWith "c02.") })) ops impl
 
 end Driver.C09
